@@ -14,7 +14,9 @@ def raw(fs):
 
 
 def tx_open(duck_conn) -> bool:
-    """Is an explicit transaction open on this DuckDB connection?  Side-effect free probe."""
+    """Is an explicit transaction open on this DuckDB connection?
+    NOT side-effect free when a transaction is open (the failing BEGIN invalidates DuckDB's pending state), so it is
+    off by default; checks decide "transaction still open" from effects (pending rows still visible, still commit)."""
     c = getattr(duck_conn, "_r", duck_conn)
     try:
         c.execute("BEGIN")
@@ -24,7 +26,7 @@ def tx_open(duck_conn) -> bool:
     return False
 
 
-def session_state(conn, with_tx: bool = True):
+def session_state(conn, with_tx: bool = False):
     d = conn._duck_conn
     d = getattr(d, "_r", d)
     try:
@@ -74,7 +76,7 @@ def catalog(fs, views: bool = False, data: bool = True, cur=None):
     return out
 
 
-def digest(fs, sessions=(), views: bool = False, data: bool = True, with_tx: bool = True):
+def digest(fs, sessions=(), views: bool = False, data: bool = True, with_tx: bool = False):
     """Canonical ground-truth state (hashable by repr): catalog + data + side tables + per-session state."""
     c = catalog(fs, views=views, data=data)
     c["sessions"] = tuple(session_state(s, with_tx) for s in sessions)
